@@ -208,13 +208,39 @@ class Arr:
         return self
 
     def __iter__(self):
-        return iter([Arr(x) if isinstance(x, list) else x for x in self.data])
+        # the elements of a numeric array are numpy scalars, not Python numbers (yaml's safe loader/dumper refuse them)
+        return iter([Arr(x) if isinstance(x, list) else np_scalar(x) for x in self.data])
 
     def __len__(self):
         return len(self.data)
 
     def __repr__(self):
         return f"Arr({self.data})"
+
+
+class NpInt(int):
+    """An integer that came out of a numpy array element-wise (np.int64): equal to the int, but not a plain Python int."""
+
+    def __repr__(self):
+        return f"np.int64({int(self)})"
+
+
+class NpFrac(Fraction):
+    """A float that came out of a numpy array element-wise (np.float64)."""
+
+
+def np_scalar(x):
+    if isinstance(x, bool) or isinstance(x, (NpInt, NpFrac)):
+        return x
+    if isinstance(x, int):
+        return NpInt(x)
+    if type(x) is Fraction:
+        return NpFrac(x)
+    return x
+
+
+def is_np_scalar(x):
+    return isinstance(x, (NpInt, NpFrac))
 
 
 def num_norm(v):
@@ -979,7 +1005,7 @@ class Evaluator:
         if isinstance(v, dict):
             return list(v)
         if isinstance(v, Arr):
-            return [Arr(x) if isinstance(x, list) else x for x in v.data]
+            return [Arr(x) if isinstance(x, list) else np_scalar(x) for x in v.data]
         if isinstance(v, (type({}.items()), type({}.keys()), type({}.values()), enumerate, zip, filter, map)):
             return list(v)
         if isinstance(v, ObjVal):
